@@ -197,9 +197,20 @@ func c12RunCase(c c12Case) error {
 		var out bytes.Buffer
 		return kio.ByteWriter{Writer: &out}.Write(nodes)
 	case "kio-keep":
-		// the reader as the build uses it (annotations off, seq indent preserved)
-		_, err := (&kio.ByteReader{Reader: bytes.NewReader(c.Data), OmitReaderAnnotations: true, PreserveSeqIndent: true}).Read()
-		return err
+		// the reader with the other option set: annotations off, seq indent and wrapping kind kept,
+		// items of List kinds not unwrapped
+		nodes, err := (&kio.ByteReader{Reader: bytes.NewReader(c.Data), OmitReaderAnnotations: true, DisableUnwrapping: true, WrapBareSeqNode: true}).Read()
+		if err != nil {
+			return err
+		}
+		for _, n := range nodes {
+			if _, err := n.String(); err != nil {
+				return err
+			}
+			_, _ = n.GetValidatedMetadata()
+			_, _ = n.HasNilEntryInList()
+		}
+		return nil
 	case "factory":
 		rf := provider.NewDefaultDepProvider().GetResourceFactory()
 		rs, err := rf.SliceFromBytes(c.Data)
@@ -912,6 +923,7 @@ func runC12(r *Run, rng *Rng, tier string) error {
 		r.AddEval(c12Fingerprint(c), nontriv[i])
 		r.Count("case_kind", c.Kind)
 		r.Count("outcome", res.Outcome)
+		r.Count("outcome_"+c.Kind, res.Outcome)
 		for _, m := range c.Muts {
 			r.Count("mutation", strings.SplitN(m, " ", 2)[0])
 			if j := strings.Index(m, " @"); j >= 0 {
